@@ -219,6 +219,30 @@ func c18R1(c *Ctx) {
 	c.Floor("C18.R1", "matching returns of matchOnePodNetworking", 1, m)
 }
 
+// decideUnder: the truth value of f in every valuation that satisfies assume (known=false when
+// both values occur, or when assume is unsatisfiable).
+func decideUnder(e *FactEngine, assume, f *Formula) (val bool, known bool) {
+	u, err := e.newUniverse(mkAnd(mkOr(assume, mkNot(assume)), mkOr(f, mkNot(f))), nil)
+	if err != nil {
+		return false, false
+	}
+	sawT, sawF := false, false
+	for v := 0; v < 1<<uint(len(u.atoms)); v++ {
+		if !u.valid.has(v) || !evalFormula(assume, u, v) {
+			continue
+		}
+		if evalFormula(f, u, v) {
+			sawT = true
+		} else {
+			sawF = true
+		}
+	}
+	if sawT == sawF {
+		return false, false
+	}
+	return sawT, true
+}
+
 // equivalent checks two formulas for logical equivalence over their joint atoms.
 func equivalent(e *FactEngine, a, b *Formula) bool {
 	u, err := e.newUniverse(mkAnd(mkOr(a, mkNot(a)), mkOr(b, mkNot(b))), nil)
@@ -318,17 +342,19 @@ func c18R2(c *Ctx) {
 		c.Bad("C18.R2", "fixed-IP entries are examined", p.Pos(loop), fn.Key(), "if entry.AllocationType.Type == IPAllocTypeFixed { … }", "not found")
 	} else {
 		q.StopBlock = loopHead(loop)
+		// the assumption "the pod has no stable name": every IsFixedNamePod(…) call of the handler is false
+		assume := fT
+		ast.Inspect(fn.Decl.Body, func(k ast.Node) bool {
+			if call, ok := k.(*ast.CallExpr); ok && calleeName(info, call) == "IsFixedNamePod" {
+				assume = mkAnd(assume, mkNot(fe.Cond(call)))
+			}
+			return true
+		})
 		q.Prune = func(cond ast.Expr, takeTrue bool) bool {
 			if cond == fixedCond {
 				return !takeTrue
 			}
-			f := fe.Cond(cond)
-			v, known := eval3f(f, func(atom string) (bool, bool) {
-				if strings.Contains(atom, "IsFixedNamePod(") {
-					return false, true
-				}
-				return false, false
-			})
+			v, known := decideUnder(fe, assume, fe.Cond(cond))
 			return known && v != takeTrue
 		}
 		denied := containsNode(func(k ast.Node) bool {
